@@ -1,0 +1,47 @@
+//go:build verif
+
+/*
+   Copyright The containerd Authors.
+
+   Licensed under the Apache License, Version 2.0 (the "License");
+   you may not use this file except in compliance with the License.
+   You may obtain a copy of the License at
+
+       http://www.apache.org/licenses/LICENSE-2.0
+
+   Unless required by applicable law or agreed to in writing, software
+   distributed under the License is distributed on an "AS IS" BASIS,
+   WITHOUT WARRANTIES OR CONDITIONS OF ANY KIND, either express or implied.
+   See the License for the specific language governing permissions and
+   limitations under the License.
+*/
+
+package layer
+
+// VerifExpireLayer fires the TTL expiry of the named entry
+// ("<refspec>/<digest>") of the layer cache, exactly as its timer would.
+// Verification builds only.
+func (r *Resolver) VerifExpireLayer(name string) {
+	r.layerCacheMu.Lock()
+	defer r.layerCacheMu.Unlock()
+	r.layerCache.VerifFireExpiry(name)
+}
+
+// VerifExpireBlob fires the TTL expiry of the named entry of the blob cache.
+func (r *Resolver) VerifExpireBlob(name string) {
+	r.blobCacheMu.Lock()
+	defer r.blobCacheMu.Unlock()
+	r.blobCache.VerifFireExpiry(name)
+}
+
+// VerifCachedNames returns the names currently held by the layer cache and
+// by the blob cache.
+func (r *Resolver) VerifCachedNames() (layers, blobs []string) {
+	r.layerCacheMu.Lock()
+	layers = r.layerCache.VerifKeys()
+	r.layerCacheMu.Unlock()
+	r.blobCacheMu.Lock()
+	blobs = r.blobCache.VerifKeys()
+	r.blobCacheMu.Unlock()
+	return
+}
